@@ -39,6 +39,7 @@ type c14Extra struct {
 	SchemaArticles  int    `json:"schema_articles"`
 	SchemaTitle     string `json:"schema_title"`      // headline/name of the first article that has one
 	SchemaRelAuthor string `json:"schema_rel_author"` // text of the first rel=author element that has text
+	SchemaDatePin   string `json:"schema_date_pin"`   // text of the first article's <time itemprop=datePublished> that has no datetime attribute
 	SchemaAuthorPin string `json:"schema_author_pin"` // name of the Person author of the first article when it follows an unsupported-type author item
 	// IE
 	IETitle     string `json:"ie_title"`
@@ -295,7 +296,13 @@ func genC14(t *rapid.T) *Case {
 					b.WriteString(`<meta itemprop="copyrightYear" content="20` + strconv.Itoa(g.intn(10, 30, "year")) + `">`)
 				}
 				if g.chance(50, "scdp") {
-					b.WriteString(`<time itemprop="datePublished" datetime="2020-01-02">2 Jan</time>`)
+					if ex.SchemaArticles == 1 && g.chance(40, "scdptext") {
+						// no datetime attribute: the element's text is the value
+						ex.SchemaDatePin = g.val("scdt", 2)
+						b.WriteString(`<time itemprop="datePublished">` + ex.SchemaDatePin + `</time>`)
+					} else {
+						b.WriteString(`<time itemprop="datePublished" datetime="2020-01-02">2 Jan</time>`)
+					}
 				}
 				if g.chance(30, "scdm") {
 					b.WriteString(`<meta itemprop="dateModified" content="2020-02-03">`)
@@ -570,6 +577,9 @@ func checkC14(c *Case) (*Violation, caseInfo) {
 	} else if ex.SchemaRelAuthor != "" && sc.Author != ex.SchemaRelAuthor {
 		// without an article item the author can only come from rel=author
 		return violationf("C14 schemaorg-rel-author", "rel=author element with text %q (no article item) yields Author=%q", ex.SchemaRelAuthor, sc.Author), info
+	}
+	if ex.SchemaDatePin != "" && sc.Article.PublishedTime != ex.SchemaDatePin {
+		return violationf("C14 schemaorg-date-from-element-text", "the first article's datePublished is a <time> element without datetime attribute and the text %q, but schema.org yields PublishedTime=%q", ex.SchemaDatePin, sc.Article.PublishedTime), info
 	}
 	if ex.SchemaAuthorPin != "" && sc.Author != ex.SchemaAuthorPin {
 		return violationf("C14 schemaorg-author-after-unsupported-item", "the first article's author is given as an item of an unsupported type and then as the Person %q, but schema.org yields Author=%q", ex.SchemaAuthorPin, sc.Author), info
